@@ -17,6 +17,14 @@ hand-written state machines (`gen_future_is_model`, `gen_moves_are_model`).
 Part 3 - dune/common/parallel/future.hh: `PseudoFuture<T>`, `PseudoFuture<void>` (micro-operation lists), the four
 forwarders of `Future<T>::FutureModel<F>` and the null tests of `Future<T>` (`gen_pseudo_is_model`, `gen_erased_is_model`).
 
+Part 4 - dune/common/parallel/mpicommunication.hh and communication.hh: for each non-blocking member (ibarrier,
+ibroadcast, igather, iscatter, iallgather, both iallreduce, isend, irecv) which future it hands out: the arguments the
+`MPIFuture` is constructed from (a validity flag, the forwarded payload parameter, or (receive, send) parameters), the one
+`MPI_I*` call, which of the future's buffers (`get_mpidata()` = data_, `get_send_mpidata()` = send_data_, MPI_IN_PLACE) it is
+given, whether the request is stored in `future.req_` and whether that future is returned; for the sequential members
+the copies between the parameters and the parameter the `PseudoFuture` is made from (`gen_operations_start`).  Length
+computations and assertions are skipped (C07's subject).
+
 Grammar (anything else raises TranslateError = broken obligation, check.py then searches for a failing input):
 * comments and preprocessor lines are dropped, whitespace is irrelevant, local variables may have any name;
 * guard statements: `int|bool|auto [const] x = e;`, `x = e;`, `active_ = e;`, `x = comm_->sum(e);` (also as initialiser),
@@ -654,14 +662,209 @@ def _future(repo):
     return out
 
 
+# ------------------------------------------------------------------------------------------------ operations
+# Part 4 (round four, second step): the non-blocking members of Communication<MPI_Comm> (mpicommunication.hh) and of the
+# sequential Communication<C> (communication.hh), as far as the *future they return* is concerned.
+
+MPICOMM = "dune/common/parallel/mpicommunication.hh"
+SEQCOMM = "dune/common/parallel/communication.hh"
+
+_NB = ["ibarrier", "ibroadcast", "igather", "iscatter", "iallgather", "iallreduce", "isend", "irecv"]
+
+
+def _params(text):
+    """names of the parameters of a parameter list (attributes removed)"""
+    text = re.sub(r"\[\[[^\]]*\]\]", " ", text)
+    out = []
+    for p in _top_split(text):
+        p = p.split("=")[0].strip()
+        m = re.search(r"(\w+)\s*$", p)
+        if p and m:
+            out.append(m.group(1))
+    return out
+
+
+def _top_split(s):
+    out, depth, cur = [], 0, ""
+    s = s.replace("->", "→")
+    for ch in s:
+        if ch in "(<[{":
+            depth += 1
+        elif ch in ")>]}":
+            depth -= 1
+        if ch == "," and depth == 0:
+            out.append(cur.strip())
+            cur = ""
+        else:
+            cur += ch
+    if cur.strip():
+        out.append(cur.strip())
+    return [a.replace("→", "->") for a in out]
+
+
+def _members(body, name):
+    """all definitions `name(params) [const] { body }` at the top level of a class body: [(params, body text)]"""
+    out = []
+    for m in re.finditer(r"(?<![\w~.>:])%s\s*\(" % name, body):
+        e = _match(body, m.end() - 1, "(", ")")
+        k = _ws(body, e)
+        mm = re.match(r"const\b", body[k:])
+        if mm:
+            k = _ws(body, k + 5)
+        if k < len(body) and body[k] == "{":
+            # only definitions, not calls: the text before the name must end a declarator (a type), i.e. `>` or a word
+            pre = body[:m.start()].rstrip()
+            if pre.endswith(("return", "=", "(", ",", ";", "{", "}")):
+                continue
+            out.append((body[m.end():e - 1], body[k + 1:_match(body, k, "{", "}") - 1]))
+    return out
+
+
+def _fwd_param(arg, params, what):
+    """index of the parameter that `arg` forwards (std::forward<..>(p), std::move(p) or p itself)"""
+    t = _norm(arg)
+    m = re.match(r"(?:std::forward < .* > \( (\w+) \)|std::move \( (\w+) \)|(\w+))$", t)
+    if not m:
+        raise TranslateError("%s: argument %r is not a forwarded parameter" % (what, arg))
+    p = m.group(1) or m.group(2) or m.group(3)
+    if p not in params:
+        raise TranslateError("%s: %r is not a parameter" % (what, p))
+    return params.index(p)
+
+
+def _mpi_op(params_text, body, what):
+    params = _params(params_text)
+    stmts = _split_stmts(body)
+    fut, ctor, call, bufs, req_ok, returns, kinds, threw = None, None, None, [], False, False, {}, False
+    for idx, st in enumerate(stmts):
+        if st[0] == "if":
+            # irecv: `if (mpidata.size() == 0) DUNE_THROW(ParallelError, ..)` before the operation is posted
+            if call is None and len(st[2]) == 1 and st[2][0][0] == "simple" and st[2][0][1].startswith("DUNE_THROW") and st[3] is None:
+                threw = True
+                continue
+            raise TranslateError("%s: control flow outside the grammar" % what)
+        if st[0] != "simple":
+            raise TranslateError("%s: block outside the grammar" % what)
+        t = st[1]
+        m = re.match(r"MPIFuture\s*<.*?>\s+(\w+)\s*[({](.*)[)}]$", t)
+        if m and fut is None:
+            fut = m.group(1)
+            args = _top_split(m.group(2))
+            if len(args) == 1 and args[0] in ("true", "false"):
+                ctor = ".flag %s" % args[0]
+            elif len(args) == 1:
+                ctor = ".one %d" % _fwd_param(args[0], params, what)
+            elif len(args) == 2:
+                ctor = ".two %d %d" % (_fwd_param(args[0], params, what), _fwd_param(args[1], params, what))
+            else:
+                raise TranslateError("%s: future constructed from %d arguments" % (what, len(args)))
+            continue
+        m = re.match(r"auto\s+(\w+)\s*=\s*(\w+)\s*\.\s*(get_mpidata|get_send_mpidata)\s*\(\s*\)$", t)
+        if m:
+            if m.group(2) != fut:
+                raise TranslateError("%s: MPI data taken from %r, not from the future" % (what, m.group(2)))
+            kinds[m.group(1)] = "data" if m.group(3) == "get_mpidata" else "sendData"
+            continue
+        m = re.match(r"(MPI_I\w+)\s*\((.*)\)$", t)
+        if m:
+            if call is not None:
+                raise TranslateError("%s: more than one operation is posted" % what)
+            call = m.group(1)
+            args = _top_split(m.group(2))
+            for a in args:
+                a1 = "".join(a.split())
+                mp = re.match(r"(\w+)\.ptr\(\)$", a1)
+                if mp:
+                    if mp.group(1) not in kinds:
+                        raise TranslateError("%s: buffer %r of unknown origin" % (what, mp.group(1)))
+                    bufs.append("." + kinds[mp.group(1)])
+                elif a1 == "MPI_IN_PLACE":
+                    bufs.append(".inPlace")
+            req_ok = "".join(args[-1].split()) == "&%s.req_" % fut
+            continue
+        m = re.match(r"return\s+(.*)$", t)
+        if m:
+            if idx != len(stmts) - 1:
+                raise TranslateError("%s: return before the end" % what)
+            returns = m.group(1).strip() == fut or "".join(m.group(1).split()) == "std::move(%s)" % fut
+            continue
+        if re.match(r"(assert\s*\(|(?:const\s+)?int\s+\w+\s*=)", t):
+            continue  # length computations and assertions: C07's subject
+        raise TranslateError("%s: statement outside the grammar: %r" % (what, t))
+    if fut is None or call is None:
+        raise TranslateError("%s: no future / no posted operation found" % what)
+    return ('{ name := "%s", arity := %d, ctor := %s, call := "%s", bufs := [%s], reqInFuture := %s, returnsFuture := %s }'
+            % (what.split("::")[-1], len(params), ctor, call, ", ".join(bufs), "true" if req_ok else "false",
+               "true" if returns else "false"))
+
+
+def _seq_op(params_text, body, what):
+    params = _params(params_text)
+    stmts = _split_stmts(body)
+    copies, ret = [], None
+    for idx, st in enumerate(stmts):
+        if st[0] != "simple":
+            raise TranslateError("%s: control flow outside the grammar" % what)
+        t = _norm(st[1])
+        m = re.match(r"return \{ (.*) \}$", t)
+        if m:
+            if idx != len(stmts) - 1:
+                raise TranslateError("%s: return before the end" % what)
+            a = m.group(1)
+            ret = ".flag %s" % a if a in ("true", "false") else ".one %d" % _fwd_param(a, params, what)
+            continue
+        if t.startswith("DUNE_THROW"):
+            return None  # isend/irecv of the sequential communicator: not supported, no future
+        # data_out = fwd(data_in) | *(data_out.begin()) = fwd(data_in) | data_out = *(fwd(data_in).begin())
+        m = re.match(r"(\* \( )?(\w+)( \. begin \( \) \))? = (\* \( )?(std::forward < \w+ > \( \w+ \)|\w+)( \. begin \( \) \))?$", t)
+        if not m or bool(m.group(1)) != bool(m.group(3)) or bool(m.group(4)) != bool(m.group(6)):
+            raise TranslateError("%s: statement outside the grammar: %r" % (what, st[1]))
+        dst = params.index(m.group(2)) if m.group(2) in params else None
+        if dst is None:
+            raise TranslateError("%s: assignment to %r" % (what, m.group(2)))
+        src = _fwd_param(m.group(5), params, what)
+        copies.append("{ dst := %d, dstFirst := %s, src := %d, srcFirst := %s }"
+                      % (dst, "true" if m.group(1) else "false", src, "true" if m.group(4) else "false"))
+    if ret is None:
+        raise TranslateError("%s: no return statement" % what)
+    return ('{ name := "%s", arity := %d, copies := [%s], ret := %s }'
+            % (what.split("::")[-1], len(params), ", ".join(copies), ret))
+
+
+def _operations(repo):
+    out = ["/-! ### the non-blocking members: which future they hand out (mpicommunication.hh, communication.hh) -/", "namespace Ops"]
+    src = _strip(open(os.path.join(repo, MPICOMM)).read())
+    body = _class_body(src, r"\bclass\s+Communication\s*<\s*MPI_Comm\s*>\s*\{", "Communication<MPI_Comm>")
+    rows = []
+    for n in _NB:
+        defs = _members(body, n)
+        if not defs:
+            raise TranslateError("Communication<MPI_Comm>::%s not found" % n)
+        for p, b in defs:
+            rows.append(_mpi_op(p, b, "Communication<MPI_Comm>::" + n))
+    out.append("def mpi : List MpiOp := [\n  %s]" % ",\n  ".join(rows))
+    src = _strip(open(os.path.join(repo, SEQCOMM)).read())
+    body = _class_body(src, r"\bclass\s+Communication\s*\{", "Communication<C>")
+    rows = []
+    for n in _NB:
+        for p, b in _members(body, n):
+            r = _seq_op(p, b, "Communication::" + n)
+            if r:
+                rows.append(r)
+    out.append("def seq : List SeqOp := [\n  %s]" % ",\n  ".join(rows))
+    out.append("end Ops")
+    return out
+
+
 def translate(repo):
-    out = ["-- GENERATED by tools/translators/tr_c19.py from %s, %s, %s -- do not edit" % (GUARD, MPIFUT, FUT),
+    out = ["-- GENERATED by tools/translators/tr_c19.py from %s, %s, %s, %s, %s -- do not edit" % (GUARD, MPIFUT, FUT, MPICOMM, SEQCOMM),
            "import DuneVerif.Model.C19",
            "namespace DV.C19.Gen",
            "open DV.C19"]
     out += _guard(repo)
     out += _mpifuture(repo)
     out += _future(repo)
+    out += _operations(repo)
     out += ["end DV.C19.Gen", ""]
     return [("DuneVerif/Gen/C19.lean", "\n".join(out))]
 
